@@ -107,8 +107,11 @@ def cut_fn(src, name, impl=None, nth=0):
     for (a, b) in regions:
         for m in pat.finditer(src, a, b):
             # signature may contain '{' only in where clauses / const generics: not in this code base
-            i = src.index('{', m.end())
-            semi = src.find(';', m.end(), i)
+            # the parameter list may hold `;` (array types such as `[f32; 3]`): look for a declaration's `;` only behind it
+            po = src.find('(', m.end())
+            after = match_brace(src, po) + 1 if po >= 0 else m.end()
+            i = src.index('{', after)
+            semi = src.find(';', after, i)
             if semi >= 0 and '(' not in src[semi:i]:
                 continue
             j = match_brace(src, i)
